@@ -145,6 +145,11 @@ func PlanFor(prop, tier string) (*Plan, error) {
 		p.Custom = RunOrder
 		p.Rule = "every `range` over a map and every maps.Keys call in x/fundraising/{keeper,types,module} is found by type-checking the working tree and rewritten (build-time -overlay, /repo untouched) to take its key order from a scheduler; for each history of the catalogue the canonical schedule (ascending keys everywhere) is run, then every schedule with at most `deviation_bound` ranges off the canonical order, each deviating range trying every permutation (<=4 keys: all 24); every schedule must give byte-identical ordered events (bank coin_spent/coin_received/transfer + module events) per op, module store dump and balances; the canonical digest is also compared across worker processes; non-trivial = schedules of histories that have at least one choice point"
 		p.Assume = []string{trustNote, "containers other than Go maps inside the SDK are out of scope", "no goroutines, rand or wall-clock reads in the module (checked by reading; time.Now only feeds telemetry)"}
+	case "C20":
+		p.Level = "exploration"
+		p.Custom = RunBinary
+		p.Rule = "the node binary is built from the working tree with default settings; (1) it must start (--help); (2) in-process, every command option of the module's AutoCLI configuration is resolved against the registered protobuf descriptors exactly as AutoCLI does (fields.ByName): RPC exists, every positional binding names a field of the request, Use placeholders match the bound fields in order, by-id queries bind every key part, every RPC of both services is reachable or a documented exemption; (3) the whole `query fundraising` / `tx fundraising` command tree of the binary is walked breadth first with --help on every node; (4) every custom-bound tx leaf is run with --generate-only --offline and one distinct sentinel per argument, and the generated JSON must carry each sentinel in the field the argument is documented for; thorough adds (5) a one-node loopback chain started from a genesis whose module part is exported by the explorer (auction + allow-list entry + bid + instalment), which must produce >=3 blocks and answer every query leaf with the exported objects; non-trivial = distinct (service, RPC, binding), tree nodes and (command, argument) pairs"
+		p.Assume = []string{trustNote, "build tags beyond the defaults (ledger) are not covered", "UpdateParams (authority-gated) and AddAllowedBidder (disabled in default builds, C10) are documented exemptions from 'reachable through a command'"}
 	case "C07":
 		p.Scenarios = []*Scenario{S3(tier, false), S1a(tier, true), S2a(tier, false)}
 		if !quick {
